@@ -32,6 +32,13 @@ package contractcourt
 //     outputs and the interpreter accepts the second-level justice inputs
 //     against the real second-level outputs.
 //
+//  6. (c04cw_test.go) the victim's STARTED chain watchers, each on its own
+//     channel state instance decoded from the live database at the victim's
+//     last (re)start - stale with respect to everything revoked since, as in
+//     a running node - are fed a sample of the revoked commitments as the
+//     spend of the funding outpoint and must dispatch the breach; the
+//     retribution they dispatch is judged as in 3 and 4.
+//
 // Negative control: the same pipeline with the revocation secret of another
 // height must be rejected by the interpreter, otherwise the run is
 // inconclusive.
@@ -89,6 +96,11 @@ type verifC04Case struct {
 
 	// statistics of the case
 	nStates, nHtlcStates, nSecond int
+
+	// started chain watchers over instances decoded at the last load of each
+	// party (c04cw_test.go).
+	idx int
+	cw  [2][]*verifC04Watch
 }
 
 func verifC04TxHex(tx *wire.MsgTx) string {
@@ -957,6 +969,13 @@ func (c *verifC04Case) breachChecks(victim int) {
 			c.negativeControl(victim, st, brWithTx, revokedTx, other)
 		}
 	}
+	if c.failed {
+		return
+	}
+
+	// The same question put to the victim's STARTED chain watchers, whose
+	// channel state instances were decoded at the last load (c04cw_test.go).
+	c.cwChecks(victim, fv.DB(), st, heights, held)
 }
 
 func verifC04RunCase(t *testing.T, vc *lnwallet.VerifCtx, i int) {
@@ -976,12 +995,15 @@ func verifC04RunCase(t *testing.T, vc *lnwallet.VerifCtx, i int) {
 	// the C01/C03 exactness oracles are not this property's subject.
 	e.SetOracles(map[string]bool{})
 
-	c := &verifC04Case{t: t, vc: vc, r: r, e: e, p: p, noAmt: noAmt, seen: map[string]bool{}}
+	c := &verifC04Case{t: t, vc: vc, r: r, e: e, p: p, noAmt: noAmt, seen: map[string]bool{}, idx: i}
 	c.snaps[0] = map[uint64]*verifC04Snap{}
 	c.snaps[1] = map[uint64]*verifC04Snap{}
 	if noAmt {
 		vc.Count("noamt_cases", 1)
 	}
+	// "node start": each party's chain watchers get their own instances.
+	defer c.cwStopAll()
+	c.cwLoad()
 
 	reconnects := 0
 	for a := 0; a < nActions && !e.Ended() && !c.failed; a++ {
@@ -999,6 +1021,9 @@ func verifC04RunCase(t *testing.T, vc *lnwallet.VerifCtx, i int) {
 				break
 			}
 			reconnects++
+			// both parties were reloaded from disk: so are their
+			// chain watchers.
+			c.cwLoad()
 		}
 	}
 	if !e.Ended() && !c.failed {
@@ -1046,6 +1071,7 @@ func verifC04RunCase(t *testing.T, vc *lnwallet.VerifCtx, i int) {
 func TestVerifC04(t *testing.T) {
 	vc := lnwallet.VerifStart(t, "C04", "breach")
 	defer vc.Finish()
+	defer verifC04CwInstallLog()()
 	total := vc.N(320, 12000)
 	for i := 0; i < total; i++ {
 		if !vc.Mine(i) {
